@@ -8,7 +8,7 @@ for p in selftest/C*/*.patch seeded/C*/patch.diff; do
   total=$((total+1))
   out=$(tools/mutant.sh "$p" "$id" 2>&1 | tail -1)
   case "$out" in
-    *"exit 1"*) echo "caught  $p";;
+    *"exit 1"*) echo "caught  $p  $(echo "$out" | grep -o 'count=[0-9]*' | head -1)";;
     *) echo "MISSED  $p :: $out"; missed=$((missed+1));;
   esac
 done
